@@ -411,7 +411,7 @@ def call_list_method(it, name, lst, args, kwargs, node):
         list_extend(it, lst, args[0])
         return None
     if lst.items is None:
-        raise EngineError('list.%s on symbolic list' % name)
+        return sym_list_method(it, name, lst, args, kwargs, node)
     items = lst.items
     if name == 'insert':
         _log(it, lst)
@@ -464,6 +464,40 @@ def call_list_method(it, name, lst, args, kwargs, node):
         lst.items = r.items
         return None
     raise EngineError('list.%s' % name)
+
+
+def sym_list_method(it, name, lst, args, kwargs, node):
+    """list methods on a symbolic (Int-coded) list; A-LIB contracts of list.insert/index/copy."""
+    ctx = it.ctx
+    enc = (lambda v: lst.codec.encode(it, v)) if lst.codec is not None else (lambda v: v)
+    n, arr = lst.length, lst.arr
+    if name == 'insert':
+        _log(it, lst)
+        i, x = args[0], zint(enc(args[1]))
+        if not is_int(i):
+            it.raise_builtin('TypeError', 'wd:type[list.insert index]')
+        i = zint(i)
+        # python clamps the index into [0, n] (negative indices count from the end)
+        idx = simp(z3.If(i < 0, z3.If(n + i < 0, 0, n + i), z3.If(i > n, n, i)))
+        new = z3.Array('ins!%d' % ctx.next_id(), z3.IntSort(), z3.IntSort())
+        ctx.assume(forall_range(ctx, 0, idx, lambda j: new[j] == arr[j], 'li'))
+        ctx.assume(new[idx] == x)
+        ctx.assume(forall_range(ctx, idx + 1, n + 1, lambda j: new[j] == arr[j - 1], 'li'))
+        lst.arr = new
+        lst.length = simp(n + 1)
+        return None
+    if name == 'index':
+        x = zint(enc(args[0]))
+        r = ctx.fresh_int('index')
+        found = z3.And(0 <= r, r < n, arr[r] == x, forall_range(ctx, 0, r, lambda j: arr[j] != x, 'li'))
+        absent = forall_range(ctx, 0, n, lambda j: arr[j] != x, 'li')
+        if ctx.branch(z_not(absent)):
+            ctx.assume(found)
+            return r
+        it.raise_builtin('ValueError', 'wd:value[list.index: not in list]')
+    if name == 'copy':
+        return PyList(None, n, arr, lst.tag, lst.codec)
+    raise EngineError('list.%s on symbolic list' % name)
 
 
 def call_dict_method(it, name, d, args, kwargs, node):
@@ -1037,6 +1071,9 @@ def bi_next(it, args, kwargs):
 
 def call_type(it, tm, args, kwargs):
     n = tm.name
+    ov = getattr(it.registry, 'builtin_overrides', {}).get(n) if it.registry is not None else None
+    if ov is not None:
+        return ov(it, args, kwargs)
     table = {'str': bi_str, 'int': bi_int, 'bool': bi_bool, 'list': bi_list, 'tuple': bi_tuple,
              'dict': bi_dict, 'set': bi_set, 'frozenset': bi_frozenset, 'type': bi_type}
     if n in table:
